@@ -47,6 +47,8 @@ enum Op {
     EntryRemove(u8),
     /// n times set(0, fresh): a long run of single updates
     BurstSet0(u8),
+    /// n times push_back(fresh)
+    BurstPushBack(u8),
 }
 
 #[derive(Clone, Copy, Debug, PartialEq, Eq, Hash)]
@@ -189,6 +191,12 @@ fn op_effect(op: Op, v: &mut Vec<Kid>, next_id: &mut u16) {
                 v[0] = e;
             }
         }
+        Op::BurstPushBack(n) => {
+            for _ in 0..n {
+                let e = fresh();
+                v.push(e);
+            }
+        }
     }
 }
 
@@ -197,6 +205,11 @@ fn ops_for(len: u8, max_len: u8, alpha: Alphabet, bursts: &[u8], out: &mut Vec<T
     if len > 0 {
         for &n in bursts {
             out.push(Tok::Op(Op::BurstSet0(n)));
+        }
+    }
+    for &n in bursts {
+        if len as usize + n as usize <= 200 {
+            out.push(Tok::Op(Op::BurstPushBack(n)));
         }
     }
     match alpha {
@@ -697,7 +710,7 @@ fn apply_op<E: El, T: Target<E>>(
                 )));
             }
         }
-        Op::BurstSet0(_) => unreachable!("bursts are expanded into single set(0) calls by the interpreter"),
+        Op::BurstSet0(_) | Op::BurstPushBack(_) => unreachable!("bursts are expanded into single calls by the interpreter"),
         Op::EntryRemove(i) => {
             let (idx, seen, old) = t.t_entry_remove(i as usize);
             if idx != i as usize || seen != pre[i as usize] || old.kid() != pre[i as usize] {
@@ -741,6 +754,7 @@ fn op_name(op: Op) -> &'static str {
         Op::EntrySet(_) => "entry_set",
         Op::EntryRemove(_) => "entry_remove",
         Op::BurstSet0(_) => "burst_set",
+        Op::BurstPushBack(_) => "burst_push_back",
     }
 }
 
@@ -1433,6 +1447,7 @@ impl<E: El> World<E> {
                 Tok::Op(op) => {
                     let (op, times) = match op {
                         Op::BurstSet0(n) => (Op::Set(0), n as usize),
+                        Op::BurstPushBack(n) => (Op::PushBack, n as usize),
                         other => (other, 1),
                     };
                     for _ in 0..times {
@@ -1548,6 +1563,7 @@ impl<E: El> World<E> {
                 Tok::Op(op0) => {
                   let (op, times) = match op0 {
                       Op::BurstSet0(n) => (Op::Set(0), n as usize),
+                      Op::BurstPushBack(n) => (Op::PushBack, n as usize),
                       other => (other, 1),
                   };
                   for _ in 0..times {
